@@ -82,7 +82,7 @@ Definition ex_slice_db : database :=
     SE "h" [App "|-" []; MV "p"];
     SA "ax1" [App "|-" []; App "->" [MV "p"; MV "q"]];
     SP "th1" [App "|-" []; MV "q"] (Some ["("; "ax1"; "mp"; ")"; "ABCABCDE"]);
-    SB [ SD ["p"; "q"]; SP "th2" [App "wff" []; App "->" [MV "p"; MV "p"]] (Some ["("; "wi"; ")"; "AAB"]) ] ].
+    SB [ SD ["p"; "q"]; SP "th2" [App "wff" []; App "->" [MV "p"; MV "p"]] (Some ["("; "wi"; ")"; "AAC"]) ] ].
 
 Example C17_slice_nonvacuous :
   wf_db ex_slice_db = true /\ consistent ex_slice_db = true /\ unique_labels ex_slice_db /\
@@ -107,4 +107,77 @@ Proof.
          [], "th1".
   eexists. split; [vm_compute; reflexivity|]. split; [vm_compute; reflexivity|].
   split; vm_compute; reflexivity.
+Qed.
+
+(** (3) the lemma's original proof still verifies in its slice, with the same statement.
+    FULL STATEMENT (not proved in general; see C17_slice_proof_verifies_partial below and notes/C17.md):
+
+      forall db sd lemma s, wf_db db = true -> consistent db = true -> unique_labels db ->
+        slice sguards_fixed db sd lemma = Some s ->
+        mm_verify db lemma = true -> mm_verify s lemma = true.
+
+    [mm_verify] is the reference verifier of MM17/Verify.v (frames with mandatory hypotheses in database
+    order, $d check, compressed and normal proofs).  What is proved here:
+    - [C17_slice_proof_verifies_partial]: the statement for ANY two databases under the decidable premise
+      [scope_agree db s lemma] (the lemma has the same frame and proof in both, every token of its proof
+      resolves to the same hypothesis / assertion frame, the slice's scope restricts the database's).
+      Missing for the full statement: [slice ... = Some s -> scope_agree db s lemma = true] (equality of the
+      frames of all kept assertions); the check evaluates [scope_agree] with the extracted model on every
+      real slice instead (must be 1).
+    - the instance on the example database (both lemmas);
+    - the refutation of the statement for the pinned slicer (D17b, D17c). *)
+From Pi2 Require Import MM17.Verify MM17.VerifyProofs.
+
+Theorem C17_slice_proof_verifies_partial : forall db s lemma,
+  scope_agree db s lemma = true -> mm_verify db lemma = true -> mm_verify s lemma = true.
+Proof. exact slice_proof_verifies_partial. Qed.
+Print Assumptions C17_slice_proof_verifies_partial.
+
+Example C17_slice_proof_verifies_partial_nonvacuous :
+  exists s, slice sguards_fixed ex_slice_db [] "th1" = Some s /\ scope_agree ex_slice_db s "th1" = true /            mm_verify ex_slice_db "th1" = true.
+Proof. eexists. split; [vm_compute; reflexivity|]. split; vm_compute; reflexivity. Qed.
+
+Example C17_slice_proof_verifies_instance :
+  mm_verify ex_slice_db "th1" = true /\ mm_verify ex_slice_db "th2" = true /\
+  (exists s, slice sguards_fixed ex_slice_db [] "th1" = Some s /\ mm_verify s "th1" = true) /\
+  (exists s, slice sguards_fixed ex_slice_db [] "th2" = Some s /\ mm_verify s "th2" = true).
+Proof.
+  split; [vm_compute; reflexivity|]. split; [vm_compute; reflexivity|].
+  split; eexists; (split; [vm_compute; reflexivity|vm_compute; reflexivity]).
+Qed.
+
+(** pinned slicer, D17b: a top-level [$e] is dropped; the proof (numbered over the mandatory hypotheses
+    wp wq h) no longer verifies *)
+Theorem C17_slice_proof_verifies_refuted_pinned_top_essential :
+  exists db sd lemma s, wf_db db = true /\ consistent db = true /\
+    slice sguards_pinned db sd lemma = Some s /\ mm_verify db lemma = true /\ mm_verify s lemma = false.
+Proof.
+  exists [ SC ["#Pattern"; "|-"; "("; ")"; "->"]; SV ["p"; "q"];
+           SF "wp" "#Pattern" "p"; SF "wq" "#Pattern" "q";
+           SA "wi" [App "#Pattern" []; App "->" [MV "p"; MV "q"]];
+           SB [ SE "mp.1" [App "|-" []; MV "p"]; SE "mp.2" [App "|-" []; App "->" [MV "p"; MV "q"]];
+                SA "mp" [App "|-" []; MV "q"] ];
+           SE "h" [App "|-" []; MV "p"];
+           SA "ax1" [App "|-" []; App "->" [MV "p"; MV "q"]];
+           SP "th1" [App "|-" []; MV "q"] (Some ["("; "ax1"; "mp"; ")"; "ABCABCDE"]) ],
+         [], "th1".
+  eexists. split; [vm_compute; reflexivity|]. split; [vm_compute; reflexivity|].
+  split; [vm_compute; reflexivity|]. split; vm_compute; reflexivity.
+Qed.
+
+(** pinned slicer, D17c: the top-level [$d p q] is hoisted in front of [wi], which then cannot be
+    instantiated with p := p, q := p any more *)
+Theorem C17_slice_proof_verifies_refuted_pinned_disjoint_hoisted :
+  exists db sd lemma s, wf_db db = true /\ consistent db = true /\
+    slice sguards_pinned db sd lemma = Some s /\ mm_verify db lemma = true /\ mm_verify s lemma = false.
+Proof.
+  exists [ SC ["#Pattern"; "|-"; "("; ")"; "->"]; SV ["p"; "q"];
+           SF "wp" "#Pattern" "p"; SF "wq" "#Pattern" "q";
+           SA "wi" [App "#Pattern" []; App "->" [MV "p"; MV "q"]];
+           SD ["p"; "q"];
+           SA "ax1" [App "|-" []; App "->" [MV "p"; MV "q"]];
+           SP "th2" [App "#Pattern" []; App "->" [MV "p"; MV "p"]] (Some ["("; "wi"; ")"; "AAB"]) ],
+         [], "th2".
+  eexists. split; [vm_compute; reflexivity|]. split; [vm_compute; reflexivity|].
+  split; [vm_compute; reflexivity|]. split; vm_compute; reflexivity.
 Qed.
